@@ -495,6 +495,24 @@ def _add_other_section_contents(
                 sym.at_end = True
                 sym.referent = sect.blocks[-2]
 
+        # Likewise, CFI directives on the last block move to the end of the
+        # previous block, and the block leaves the alignment table.
+        cfi_table = _auxdata_offsetmap.cfi_directives.get(module)
+        if cfi_table and sect.blocks[-1] in cfi_table:
+            if len(sect.blocks) == 1:
+                raise NotImplementedError(
+                    "Cannot create a zero-sized block with CFI directives; "
+                    "try adding data after the directives."
+                )
+
+            prev_block = sect.blocks[-2]
+            prev_directives = cfi_table.setdefault(prev_block, {})
+            for directives in cfi_table.pop(sect.blocks[-1]).values():
+                prev_directives.setdefault(prev_block.size, []).extend(
+                    directives
+                )
+        sect.alignment.pop(sect.blocks[-1], None)
+
         del sect.blocks[-1]
 
     cache.block_ordering[gtirb_sect].add_detached_blocks(sect.blocks)
